@@ -464,6 +464,14 @@ func registerIntrinsics(in *Interp) {
 		}
 		return done(mkI64(int64(strings.Compare(string(x), string(y)))))
 	}
+	I["internal/bytealg.CompareString"] = func(st *State, fr *Frame, a []Value, _ ssa.Value) (Value, int) {
+		x, y := a[0].(Str), a[1].(Str)
+		if x.B != nil || y.B != nil {
+			unsupported("bytealg.CompareString on symbolic strings")
+		}
+		return done(mkI64(int64(strings.Compare(x.S, y.S))))
+	}
+	I["strings.Compare"] = I["internal/bytealg.CompareString"]
 	I["internal/bytealg.MakeNoZero"] = func(st *State, fr *Frame, a []Value, _ ssa.Value) (Value, int) {
 		n := st.concrete(a[0].(Int))
 		return done(st.makeSlice(types.Typ[types.Uint8], n, n))
